@@ -649,10 +649,219 @@ def check_C11(tier, seed):
     return out
 
 
+# ======================================================================================= C03 / C17 (regex layer)
+def rx_items_check(recs, workname, tlc_procs=4, tlc_workers=2):
+    import rx as rxl
+    items = [rxl.to_item(r) for r in recs if r and r['built']]
+    work = vlib.scratch(workname)
+    tasks = []
+    for ci, part in enumerate(pipeline.chunks(items, tlc_procs)):
+        ip = os.path.join(work, 'rx%d.items.ndjson' % ci)
+        vlib.write_ndjson(ip, part)
+        cfg = pipeline.write_cfg(work, 'rx%d' % ci, 'Spec', ['RefReported', 'ModelReported', 'StaticReported'], view='vw')
+        tasks.append((part, (lambda ip=ip, cfg=cfg, ci=ci: vlib.run_tlc('RxCheck', cfg, {'VERIF_RX': ip}, '%s_rx%d' % (workname, ci), workers=tlc_workers, timeout=1500))))
+    outs = vlib.run_parallel([t[1] for t in tasks])
+    ref, model, static = collections.defaultdict(list), collections.defaultdict(list), {}
+    st = tr = 0
+    runs = []
+    for (part, _), r in zip(tasks, outs):
+        if r.exit != 0 or r.errors:
+            raise Infra('RxCheck failed: %s\n%s' % (r.errors[:3], r.out[-3000:]))
+        st += r.distinct; tr += r.generated
+        runs.append({'kind': 'rx-product', 'patterns': len(part), 'distinct': r.distinct, 'generated': r.generated, 'wall_s': round(r.wall, 1)})
+        for d in r.lines.get('RXREF', []):
+            ref[d['id']].append(d)
+        for d in r.lines.get('RXMODEL', []):
+            model[d['id']].append(d)
+        for d in r.lines.get('RXSTATIC', []):
+            static[d['id']] = d
+    return {i['id']: i for i in items}, ref, model, static, st, tr, runs
+
+
+def syntax_check(recs, workname, tlc_procs=4, tlc_workers=2):
+    items = []
+    for r in recs:
+        if r is None:
+            continue
+        oob = sum(1 for e in r['reads1'] + r['reads2'] if e[0] in ('oobread', 'oobview'))
+        calls = []
+        if r['valid'] and r['built']:
+            for c in r['calls']:
+                if c['op'] == 'char':
+                    calls.append({'op': 'set', 'ranges': [[c['a'][0], c['a'][0]]], 'n': 0})
+                else:
+                    calls.append({'op': c['op'], 'ranges': c['ranges'], 'n': c['a'][0] if c['op'] == 'rep' else 0})
+        items.append({'id': r['id'], 'pat': r['pattern'], 'valid': r['valid'], 'oob': oob, 'calls': calls})
+    work = vlib.scratch(workname)
+    tasks = []
+    for ci, part in enumerate(pipeline.chunks(items, tlc_procs)):
+        ip = os.path.join(work, 'syn%d.items.ndjson' % ci)
+        vlib.write_ndjson(ip, part)
+        cfg = pipeline.write_cfg(work, 'syn%d' % ci, 'Spec', ['SynReported', 'ClassReported'])
+        tasks.append((part, (lambda ip=ip, cfg=cfg, ci=ci: vlib.run_tlc('SyntaxCheck', cfg, {'VERIF_SYN': ip}, '%s_syn%d' % (workname, ci), workers=tlc_workers, timeout=1500))))
+    outs = vlib.run_parallel([t[1] for t in tasks])
+    probs, classes = [], collections.Counter()
+    syntax_check.cls_by_id = {}
+    st = tr = 0
+    for (part, _), r in zip(tasks, outs):
+        if r.exit != 0 or r.errors:
+            raise Infra('SyntaxCheck failed: %s\n%s' % (r.errors[:3], r.out[-3000:]))
+        st += r.distinct; tr += r.generated
+        probs += r.lines.get('SYN', [])
+        for d in r.lines.get('SYNCLASS', []):
+            classes[(d['c'], d['valid'])] += 1
+            syntax_check.cls_by_id[d['id']] = d['c']
+    return probs, classes, st, tr
+
+
+def pat_text(b):
+    return bytes(b).decode('latin-1')
+
+
+def check_C03(tier, seed):
+    import rx as rxl
+    out = Outcome()
+    rng = random.Random(seed)
+    pats = []
+    for n in (1, 2, 3) if tier == 'quick' else (1, 2, 3, 4):
+        pats += [rxl.render(a) for a in rxl.enum_asts(n)]
+    pats += [rxl.render(a) for a in rxl.enum_asts(4)][::6] if tier == 'quick' else [rxl.render(a) for a in rxl.enum_asts(5)][::23]
+    pats += rxl.repo_patterns()
+    pats += ['a*a', '(ab|ac)*', '(a|ab)c', '(a*b)*', 'a?a', '(ab)+a', 'a*b*a', '(a|b)*abb', '.*b', '[a-z]+[0-9]*', '(a{2}){3}', 'a{10}', '(a|b){4}c',
+             '\\x41\\x7[\\x80-\\xff]'.replace('\\\\', '\\'), '/\\*.*\\*/'.replace('\\\\', '\\'), '"[^"]*"', '[_a-zA-Z][_a-zA-Z0-9]*', '0|[1-9][0-9]*', '1{2}3', '[0-9]+\\.[0-9]+'.replace('\\\\', '\\')]
+    for i in range(200 if tier == 'quick' else 3000):
+        pats.append(rxl.random_pattern(rng, depth=rng.choice([2, 3, 4])))
+    seen, jobs = set(), []
+    for ptxt in pats:
+        if ptxt in seen:
+            continue
+        seen.add(ptxt)
+        jobs.append(('p%d' % len(jobs), list(ptxt.encode('latin-1')), []))
+    recs, crashed, work = rxl.run_rx(jobs, 'C03')
+    if crashed:
+        out.notes.append('rx driver died on: %s' % json.dumps(crashed)[:300])
+    byid = {j[0]: j for j in jobs}
+    items, ref, model, static, st, tr, runs = rx_items_check(recs, 'C03tlc', tlc_procs=4 if tier == 'quick' else 8)
+    sprobs, classes, st2, tr2 = syntax_check(recs, 'C03syn', tlc_procs=4 if tier == 'quick' else 8)
+    # ---- execute the shortest witness of every failing pattern on the real matcher
+    wjobs = []
+    for pid in set(ref) | set(model):
+        ws = sorted(ref.get(pid, []) + model.get(pid, []), key=lambda d: len(d['w']))[:2]
+        strs = [rxl.witness_bytes(items[pid], d['w']) for d in ws] + [rxl.witness_bytes(items[pid], d['w'], rng) for d in ws]
+        wjobs.append((pid, byid[pid][1], strs))
+    wrecs, crashed2, _ = rxl.run_rx(wjobs, 'C03w') if wjobs else ([], [], None)
+    confirmed = {}
+    for (pid, pat, strs), r in zip(wjobs, wrecs):
+        if r is None or not r['built']:
+            continue
+        ws = sorted(ref.get(pid, []) + model.get(pid, []), key=lambda d: len(d['w']))[:2]
+        for d, m in zip(ws + ws, r['matches']):
+            real_acc = (m['idx'] == 0 and m['len'] == len(m['s']))
+            if real_acc == d['real']:
+                confirmed.setdefault(pid, []).append({'string': m['s'], 'real_accepts': real_acc, 'pattern_language_contains': d.get('ref', None)})
+    k1 = known_match('C03', 'rx-design')
+    k1_cases = []
+    cls = dict(syntax_check.cls_by_id)
+    for pid in sorted(set(ref) | set(model) | set(static)):
+        ptxt = pat_text(byid[pid][1])
+        if cls.get(pid) != 'documented' and pid not in model and pid not in static:
+            out.notes.append('pattern outside the documented syntax, no verdict from its language: %r' % ptxt)
+            continue
+        deviates = pid in model or (pid in static and static[pid]['why'][0] in ('returned-slice', 'call-sequence-not-a-tree', 'state', 'size-used'))
+        if deviates:
+            out.violations.append({'summary': {'pattern': ptxt, 'class': 'real automaton deviates from the modelled builder AND from the pattern language' if pid in ref else 'real automaton deviates from the modelled builder',
+                                               'model_mismatch': model.get(pid, [None])[0], 'static': static.get(pid), 'executed': confirmed.get(pid, [])[:2]},
+                                   'kind': 'rx', 'pattern': byid[pid][1]})
+        elif pid in ref:
+            if not confirmed.get(pid):
+                raise Infra('witness of %r not reproduced by the real matcher' % ptxt)
+            if k1:
+                k1_cases.append((ptxt, confirmed[pid][0]))
+            else:
+                out.violations.append({'summary': {'pattern': ptxt, 'class': 'language differs from the pattern', 'executed': confirmed[pid][:2]}, 'kind': 'rx', 'pattern': byid[pid][1]})
+    for d in sprobs:
+        if d['why'][0] in ('meaning', 'rejected-documented'):
+            out.violations.append({'summary': {'pattern': pat_text(d['pat']), 'class': 'syntax layer: ' + d['why'][0], 'library_accepts': d['valid']}, 'kind': 'rx', 'pattern': d['pat']})
+    out.violations = out.violations[:12]
+    if k1_cases:
+        ex = '; '.join('%r rejects/accepts %r wrongly' % (p, bytes(c['string']).decode('latin-1')) for p, c in k1_cases[:4])
+        out.known.append('K1 in-place DFA merging (no subset construction): %d of %d patterns fail exactly as the modelled design fails, e.g. %s' % (len(k1_cases), len(items), ex))
+    out.coverage = {'states': int(st + st2), 'transitions': int(max(tr + tr2, 1)), 'traces_validated_against_impl': len(items),
+                    'patterns': len(jobs), 'patterns_built': len(items), 'patterns_language_equal': len(items) - len(set(ref) | set(model)),
+                    'patterns_failing_as_modelled_design_K1': len(k1_cases), 'patterns_deviating_from_model': len(out.violations),
+                    'witnesses_executed_on_real_matcher': sum(len(v) for v in confirmed.values()),
+                    'syntax_classes(documented/unspecified/reject x library accepts)': {'%s,%s' % k: v for k, v in classes.items()},
+                    'tlc_runs': runs, 'bounds': {'ast_sizes_exhaustive': 3 if tier == 'quick' else 4, 'alphabet': 'full 256 bytes through per-pattern segments'},
+                    'samples': [{'pattern': pat_text(byid[pid][1]), 'calls': [c['op'] for c in recs[int(pid[1:])]['calls']], 'states': len(items[pid]['dfa']), 'segments': items[pid]['segs']} for pid in list(items)[:3]],
+                    'exhaustive': False}
+    out.assumptions = ['TLC + JSON reader', 'segment abstraction of the byte alphabet (exact: the segmentation is refined by the real rows, argument in DESIGN.md C03)',
+                       'each recorded builder call sequence is replayed on the TLA+ transcription of dfa_builder (trace validation of the builder)',
+                       'K1 attribution: a failing pattern is a known finding only if real automaton and modelled automaton agree on every string']
+    return out
+
+
+def check_C17(tier, seed):
+    import rx as rxl
+    out = Outcome()
+    rng = random.Random(seed)
+    alpha = [ord(c) for c in 'ab1()[]^-*+?{}|\\.x'.replace('\\\\', '\\')] + [1, 0x80]
+    jobs = []
+    nmax = 3 if tier == 'quick' else 4
+    for n in range(0, nmax + 1):
+        for t in itertools.product(alpha, repeat=n):
+            jobs.append(('t%d' % len(jobs), list(t), []))
+    for i in range(3000 if tier == 'quick' else 60000):
+        n = rng.choice([4, 5, 6, 7, 8]) if tier == 'quick' else rng.choice([5, 6, 7, 8, 9, 10])
+        jobs.append(('t%d' % len(jobs), [rng.choice(alpha) for _ in range(n)], []))
+    # mutations of valid patterns (drop / duplicate / insert one byte)
+    base = [rxl.render(a) for a in rxl.enum_asts(3)][::7] + rxl.repo_patterns()
+    for ptxt in base:
+        b = list(ptxt.encode('latin-1'))
+        for _ in range(3 if tier == 'quick' else 12):
+            m = list(b)
+            k = rng.randrange(len(m) + 1)
+            r = rng.random()
+            if r < 0.4 and m:
+                del m[min(k, len(m) - 1)]
+            elif r < 0.8:
+                m.insert(k, rng.choice(alpha))
+            elif m:
+                m[min(k, len(m) - 1)] = rng.choice(alpha)
+            jobs.append(('t%d' % len(jobs), m, []))
+    recs, crashed, work = rxl.run_rx(jobs, 'C17')
+    for rc, j in crashed:
+        out.violations.append({'summary': {'pattern': pat_text(j[1]) if j else None, 'class': 'the front end crashed (signal %s) while scanning the pattern' % rc}, 'kind': 'rx', 'pattern': j[1] if j else []})
+    probs, classes, st, tr = syntax_check(recs, 'C17syn', tlc_procs=4 if tier == 'quick' else 8)
+    for d in probs:
+        if d['why'][0] in ('accepted-malformed', 'read-past-end'):
+            out.violations.append({'summary': {'pattern': pat_text(d['pat']), 'bytes': d['pat'], 'class': d['why'][0], 'library_accepts': d['valid']}, 'kind': 'rx', 'pattern': d['pat']})
+        else:
+            out.notes.append('syntax-layer problem judged by C03: %s %s' % (pat_text(d['pat']), d['why']))
+    out.violations = out.violations[:12]
+    out.coverage = {'states': int(st), 'transitions': int(max(tr, 1)), 'traces_validated_against_impl': len([r for r in recs if r]),
+                    'texts': len(jobs), 'exhaustive_up_to_length': nmax, 'alphabet': [chr(c) if 32 < c < 127 else '\\x%02x' % c for c in alpha],
+                    'classes(documented/unspecified/reject x library accepts)': {'%s,%s' % k: v for k, v in classes.items()},
+                    'samples': [{'text': pat_text(r['pattern']), 'library_accepts': r['valid'], 'builder_calls': [c['op'] for c in r['calls']]} for r in recs[200:203] if r],
+                    'exhaustive': True}
+    out.assumptions = ['TLC + JSON reader', 'documented syntax = spec/RegexSyntax.tla (three-valued: must accept / must reject / unspecified)',
+                       'reads observed through harness checked_buffer (index len = terminating NUL of a pattern literal is allowed)',
+                       'validity is what analyze_dfa_size computes (every regex_term / regex::expr / parser turns it into a throw)']
+    return out
+
+
 # ======================================================================================= replay
 def replay(pid, path):
     v = json.load(open(path))
     out = Outcome()
+    if v.get('kind') == 'rx':
+        import rx as rxl
+        recs, crashed, work = rxl.run_rx([('p0', list(v['pattern']), [])], 'replay')
+        items, ref, model, static, st, tr, runs = rx_items_check(recs, 'replaytlc')
+        probs, classes, st2, tr2 = syntax_check(recs, 'replaysyn')
+        print('library accepts:', recs[0] and recs[0]['valid'], ' ref mismatches:', len(ref.get('p0', [])), ' model mismatches:', len(model.get('p0', [])), ' syntax:', [d['why'] for d in probs])
+        if crashed or ref or model or static or probs:
+            out.violations.append(v)
+        return out
     if v.get('kind') == 'diag':
         gd = v['grammar']
         g = gram.Grammar(v['gname'], gd['nts'], gd['ts'], gd['root'], [tuple(r) for r in gd['rules']], gd['tprec'], gd['tassoc'])
